@@ -117,15 +117,18 @@ func checkC12(w *World, r *Report) {
 	}
 	g("C1-exists", "cancellation requires the auction to exist", "", errCases("Auction.Get", getErr(w, "Auction")), "err:Auction.Get")
 	g("C2-auctioneer", "only the stored auctioneer cancels", "any account can cancel (and thereby refund/stop) someone else's auction",
-		eqCases("stored auctioneer", "msg.Auctioneer", func(t *Term) bool { return storedField(t, "Auction", "Auctioneer") && !containsFieldOfParam(t, "Auctioneer") },
-			func(t *Term) bool { return containsFieldOfParam(t, "Auctioneer") && !storedField(t, "Auction", "Auctioneer") }), "pair0")
+		eqCases("stored auctioneer", "msg.Auctioneer", func(t *Term) bool {
+			return storedField(t, "Auction", "Auctioneer") && !containsFieldOfParam(t, "Auctioneer")
+		},
+			func(t *Term) bool {
+				return containsFieldOfParam(t, "Auctioneer") && !storedField(t, "Auction", "Auctioneer")
+			}), "pair0")
 	g("C3-standby", "cancellation only while the auction is StandBy", "an opened auction with bids can be cancelled, stranding the bidders' reservations",
 		enumCases(w, "AuctionStatus", "status", func(t *Term, v ssa.Value) bool { return isField(t, "Status") && fromColl(t.Args[0], "Auction") }, func(v int64) bool { return v == stStandBy }), "enum:status")
 
 	// "once an auction has opened nobody can cancel it": opening is done by the block hook that runs before the block's
 	// transactions (BeginBlock), for StartTime ≤ BlockTime — otherwise a cancel in the opening block still sees StandBy
-	r.Sub(checkC07, "BB-WIRE")
-	r.Sub(checkC08, "TIME-POL")
+	r.Sub(checkC08, "BB-BEGIN", "TIME-POL")
 
 	// ---------------------------------------------------------------- CN-EFFECT
 	for _, typ := range []int64{1, 2} {
